@@ -78,6 +78,9 @@ pub mod sign;
 pub mod stats;
 pub mod version;
 
+#[cfg(roughenough_verif)]
+pub mod verif;
+
 /// Version of Roughenough
 pub const VERSION: &str = "1.3.0-draft13";
 
